@@ -157,7 +157,10 @@ type desc struct {
 	// how the script spells it (no effect on the ES5 meaning)
 	truthy  int  // spelling of booleans
 	inherit bool // fields e/c live on the descriptor object's prototype
+	notObj  bool // the descriptor argument is not an object at all (8.10.5 step 1: TypeError)
 }
+
+var notObjSpell = []string{"5", "undefined", "null", "\"get\"", "true", "NaN", "0"}
 
 var trueSpell = []string{"true", "1", "\"x\"", "{}", "[]", "-1", "F[0]"}
 var falseSpell = []string{"false", "0", "\"\"", "null", "undefined", "NaN", "(-0)"}
@@ -183,6 +186,9 @@ func (d desc) gsJS(g int) string {
 }
 
 func (d desc) js() string {
+	if d.notObj {
+		return notObjSpell[d.truthy%len(notObjSpell)]
+	}
 	var own, inh []string
 	if d.hasValue {
 		own = append(own, "value: "+d.value.js())
@@ -241,6 +247,9 @@ func gsCoq(g int) string {
 }
 
 func (d desc) coq() string {
+	if d.notObj {
+		return "(mkR None None GBad GAbsent None None)" // any descriptor that makes ToPropertyDescriptor throw
+	}
 	v := "None"
 	if d.hasValue {
 		v = "(Some " + d.value.coq() + ")"
@@ -265,14 +274,39 @@ type op struct {
 	d       desc
 	atN, o2 int
 	delN    int
+	with    bool // put/delete spelled through a with statement (object environment record)
+	hidden  int  // defines/create: the properties object also carries entries that 15.2.3.7 must ignore
 }
 
-func entriesJS(l []entry) string {
+func entriesJS(l []entry, hidden int) string {
 	parts := make([]string, len(l))
 	for i, e := range l {
 		parts[i] = names[e.n] + ": " + e.d.js()
 	}
-	return "{" + strings.Join(parts, ", ") + "}"
+	lit := "{" + strings.Join(parts, ", ") + "}"
+	if hidden == 0 {
+		return lit
+	}
+	// inherited and non-enumerable entries of the properties object are not "own enumerable": ignored
+	used := map[int]bool{}
+	for _, e := range l {
+		used[e.n] = true
+	}
+	var free []int
+	for n := 0; n < 4; n++ {
+		if !used[n] {
+			free = append(free, n)
+		}
+	}
+	if len(free) == 0 {
+		return lit
+	}
+	inh := fmt.Sprintf("{%s: {value: 77, enumerable: true}}", names[free[0]])
+	src := fmt.Sprintf("(function () { var P = Object.create(%s); var L = %s; for (var k in L) P[k] = L[k]; ", inh, lit)
+	if len(free) > 1 && hidden > 1 {
+		src += fmt.Sprintf("Object.defineProperty(P, %q, {value: {value: 78, enumerable: true}, enumerable: false}); ", names[free[1]])
+	}
+	return src + "return P; })()"
 }
 
 func entriesCoq(l []entry) string {
@@ -288,19 +322,26 @@ func (o op) js() string {
 	case "define":
 		return fmt.Sprintf("Object.defineProperty(V[%d], %q, %s)", o.o, names[o.n], o.d.js())
 	case "defines":
-		return fmt.Sprintf("Object.defineProperties(V[%d], %s)", o.o, entriesJS(o.l))
+		return fmt.Sprintf("Object.defineProperties(V[%d], %s)", o.o, entriesJS(o.l, o.hidden))
 	case "create":
 		p := "null"
 		if o.p >= 0 {
 			p = fmt.Sprintf("V[%d]", o.p)
 		}
 		if o.hasL {
-			return fmt.Sprintf("var T = Object.create(%s, %s); A.push(T); V[%d] = T", p, entriesJS(o.l), o.o)
+			return fmt.Sprintf("var T = Object.create(%s, %s); A.push(T); V[%d] = T", p, entriesJS(o.l, o.hidden), o.o)
 		}
 		return fmt.Sprintf("var T = Object.create(%s); A.push(T); V[%d] = T", p, o.o)
 	case "put":
+		if o.with {
+			// same [[Put]] when the name resolves in the object environment record (10.2.1.2)
+			return fmt.Sprintf("if (%q in V[%d]) { with (V[%d]) { %s = %s; } } else { V[%d].%s = %s; }", names[o.n], o.o, o.o, names[o.n], o.v.js(), o.o, names[o.n], o.v.js())
+		}
 		return fmt.Sprintf("V[%d].%s = %s", o.o, names[o.n], o.v.js())
 	case "delete":
+		if o.with {
+			return fmt.Sprintf("var T; if (%q in V[%d]) { with (V[%d]) { T = delete %s; } } else { T = delete V[%d].%s; } LOG.push(T === true ? 1 : T === false ? 0 : 7)", names[o.n], o.o, o.o, names[o.n], o.o, names[o.n])
+		}
 		return fmt.Sprintf("var T = delete V[%d].%s; LOG.push(T === true ? 1 : T === false ? 0 : 7)", o.o, names[o.n])
 	case "freeze":
 		return fmt.Sprintf("Object.freeze(V[%d])", o.o)
@@ -452,6 +493,9 @@ func (g *gen) descriptor() desc {
 	if g.intn(10) == 0 {
 		d.inherit = true
 	}
+	if g.intn(60) == 0 {
+		return desc{notObj: true, truthy: g.intn(7)}
+	}
 	d.e, d.c = g.tri(), g.tri()
 	switch k := g.intn(20); {
 	case k < 4: // generic
@@ -513,18 +557,18 @@ func (g *gen) randomOp(hotO, hotN int) op {
 	case k < 38:
 		return op{kind: "define", o: o, n: n, d: g.descriptor()}
 	case k < 45:
-		return op{kind: "defines", o: o, l: g.entries()}
+		return op{kind: "defines", o: o, l: g.entries(), hidden: g.hiddenKind()}
 	case k < 53:
 		p := g.intn(4) - 1
 		c := op{kind: "create", o: g.intn(3), p: p}
 		if g.intn(3) == 0 {
-			c.hasL, c.l = true, g.entries()
+			c.hasL, c.l, c.hidden = true, g.entries(), g.hiddenKind()
 		}
 		return c
 	case k < 73:
-		return op{kind: "put", o: o, n: n, v: g.value()}
+		return op{kind: "put", o: o, n: n, v: g.value(), with: g.intn(6) == 0}
 	case k < 83:
-		return op{kind: "delete", o: o, n: n}
+		return op{kind: "delete", o: o, n: n, with: g.intn(6) == 0}
 	case k < 87:
 		return op{kind: "freeze", o: o}
 	case k < 91:
@@ -532,8 +576,76 @@ func (g *gen) randomOp(hotO, hotN int) op {
 	case k < 95:
 		return op{kind: "prevent", o: o}
 	default:
-		return op{kind: "forindel", o: o, atN: g.intn(4), o2: g.intn(3), delN: g.intn(4)}
+		f := op{kind: "forindel", o: o, atN: n, o2: o, delN: g.intn(4)}
+		if g.intn(4) == 0 {
+			f.o2 = g.intn(3)
+		}
+		return f
 	}
+}
+
+func (g *gen) hiddenKind() int {
+	if g.intn(4) == 0 {
+		return 1 + g.intn(2)
+	}
+	return 0
+}
+
+// SameValue boundaries of 8.12.9 step 10.a.ii: a frozen-valued property redefined with every other value
+func (g *gen) sameValue() []op {
+	v1, v2 := valuePool[g.intn(len(valuePool))], valuePool[g.intn(len(valuePool))]
+	if g.intn(5) < 3 {
+		// +0, -0, NaN and 1 against each other
+		edge := []val{{4, 0}, {6, 0}, {5, 0}, {4, 1}}
+		v1, v2 = edge[g.intn(4)], edge[g.intn(4)]
+	} else if g.intn(3) == 0 {
+		v2 = v1
+	}
+	first := desc{hasValue: true, value: v1, e: g.tri(), c: 2 * g.intn(2)}
+	ops := []op{{kind: "define", o: 0, n: 0, d: first}}
+	ops = append(ops, op{kind: "define", o: 0, n: 0, d: desc{hasValue: true, value: v2, w: g.tri() * g.intn(2), e: first.e}})
+	switch g.intn(3) {
+	case 0:
+		ops = append(ops, op{kind: "put", o: 0, n: 0, v: v2})
+	case 1:
+		ops = append(ops, op{kind: "define", o: 0, n: 0, d: desc{hasValue: true, value: v1}})
+	}
+	return ops
+}
+
+// insertion order: several names on one object, then deletions, re-insertions and redefinitions
+func (g *gen) order() []op {
+	var ops []op
+	o := g.intn(2)
+	if o == 1 || g.intn(2) == 0 {
+		ops = append(ops, op{kind: "create", o: 1, p: 0})
+	}
+	perm := g.env.Rng.Perm(4)
+	k := 3 + g.intn(2)
+	for i := 0; i < k; i++ {
+		if g.intn(3) == 0 {
+			ops = append(ops, op{kind: "define", o: o, n: perm[i], d: desc{hasValue: true, value: g.value(), w: 1, e: 1 + g.intn(2), c: 1}})
+		} else {
+			ops = append(ops, op{kind: "put", o: o, n: perm[i], v: g.value()})
+		}
+	}
+	m := 2 + g.intn(5)
+	for i := 0; i < m; i++ {
+		n := g.intn(4)
+		switch g.intn(8) {
+		case 0, 1, 2:
+			ops = append(ops, op{kind: "delete", o: o, n: n, with: g.intn(6) == 0})
+		case 3, 4:
+			ops = append(ops, op{kind: "put", o: o, n: n, v: g.value()})
+		case 5:
+			ops = append(ops, op{kind: "define", o: o, n: n, d: g.descriptor()})
+		case 6:
+			ops = append(ops, op{kind: "forindel", o: o, atN: g.intn(4), o2: o, delN: n})
+		default:
+			ops = append(ops, op{kind: "put", o: 0, n: n, v: g.value()})
+		}
+	}
+	return ops
 }
 
 func (g *gen) history(maxLen int) []op {
@@ -677,7 +789,7 @@ func (g *gen) emit(ops []op, bucket string) {
 
 func runC07(env *Env) {
 	env.Import = "Otto.C07.Corr"
-	env.Rule = "histories of defineProperty/defineProperties/create/put/delete/freeze/seal/preventExtensions/for-in-with-delete over 3 variables, 4 names and re-wired prototype links, descriptors from the full product (absent/true/false attributes, value, get/set absent/undefined/function/not callable, contradictory ones, truthy/falsy spellings, inherited fields); after every operation its result and a snapshot of every own descriptor, in, hasOwnProperty, propertyIsEnumerable, [[Get]], keys, getOwnPropertyNames, for-in, isExtensible/isSealed/isFrozen of the three variables; plus the two-step product stored shape x descriptor (sampled in quick, exhaustive in thorough); non-trivial = distinct history with at least two operations"
+	env.Rule = "histories of defineProperty/defineProperties/create/put/delete/freeze/seal/preventExtensions/for-in-with-delete over 3 variables, 4 names and re-wired prototype links, descriptors from the full product (absent/true/false attributes, value, get/set absent/undefined/function/not callable, contradictory ones, truthy/falsy spellings, inherited fields); after every operation its result and a snapshot of every own descriptor, in, hasOwnProperty, propertyIsEnumerable, [[Get]], keys, getOwnPropertyNames, for-in, isExtensible/isSealed/isFrozen of the three variables; plus the two-step product stored shape x descriptor (sampled in quick, exhaustive in thorough), SameValue boundary pairs (NaN, +0, -0, ...) on non-writable properties, and insertion-order histories (3-4 names, deletions, re-insertions); assignments/deletions also spelled through a with statement, descriptors that are not objects, properties objects carrying inherited and non-enumerable entries; non-trivial = distinct history with at least two operations"
 	g := &gen{env: env}
 	for _, h := range pinned() {
 		g.emit(h, "pinned")
@@ -693,8 +805,15 @@ func runC07(env *Env) {
 		}
 	}
 	for env.Count() < env.N {
-		if g.intn(10) < 3 {
+		switch k := g.intn(20); {
+		case k < 5:
 			g.emit(g.product(g.intn(total), sh, se), "two-step-product")
+			continue
+		case k < 7:
+			g.emit(g.sameValue(), "same-value")
+			continue
+		case k < 10:
+			g.emit(g.order(), "insertion-order")
 			continue
 		}
 		h := g.history(maxLen)
